@@ -3,7 +3,7 @@
    Spec.v (JsonStd) is the reference; Model.v mirrors /repo/codec after the
    repairs F09-1 (readFloat counters) and F09-2 (lone surrogates). *)
 From Coq Require Import List NArith ZArith Bool.
-From Verif Require Import Gen.Consts Base.Outcome C09.Spec C09.Model C09.ProofsStr C09.ProofsNum C09.ProofsUint C09.ProofsQuote C09.ProofsFast C09.ProofsNumAll.
+From Verif Require Import Gen.Consts Base.Outcome C09.Spec C09.Model C09.ProofsStr C09.ProofsNum C09.ProofsUint C09.ProofsQuote C09.ProofsFast C09.ProofsNumAll C09.ProofsParse.
 Import ListNotations.
 
 (* readFloat on the text of ANY literal of the JSON number grammar, for each of the
@@ -80,8 +80,7 @@ Print Assumptions C09_unescape_refuted.
    or not), writes a string literal of the grammar, and that literal denotes
    utf8_sanitise s (each byte that starts no well-formed sequence becomes U+FFFD):
    what encoding/json.Unmarshal returns for it.  (valid_string_literal is the
-   existential below; the executable reader Spec.unescape is compared with it on
-   every harness case, CQuote, not by a theorem.) *)
+   existential below; C09_quote_fn states the same with the function Spec.unescape.) *)
 Theorem C09_quote : forall (h : bool) (s : list N),
   exists l, forallb wf_item l = true /\ quoteStr h s = render_lit l /\ denote l = utf8_sanitise s.
 Proof. exact quote_lemma. Qed.
@@ -109,6 +108,30 @@ Theorem C09_uint_decorated : forall (neg quotes : bool) (u : Z),
   ++ (if quotes then [34%N] else []).
 Proof. exact uint_decorated. Qed.
 Print Assumptions C09_uint_decorated.
+
+(* The same two statements with the executable reference reader JsonStd.unescape
+   (Spec.unescape = denote . parse_items) instead of the relational grammar: the
+   grammar is unambiguous (C09_unescape_std), so on every valid literal outside
+   F09-2r the decoder returns exactly what JsonStd.unescape returns, and
+   JsonStd.unescape (quoteStr O s) = (utf8_sanitise s, nothing left). *)
+Theorem C09_unescape_std : forall (l : list item) (tl : list N),
+  forallb wf_item l = true -> unescape (render_lit l ++ tl) = Some (denote l, tl).
+Proof. exact unescape_render. Qed.
+Print Assumptions C09_unescape_std.
+
+Theorem C09_unescape_fn : forall (l : list item) (tl : list N),
+  forallb wf_item l = true -> nopin l = true ->
+  match unescape (render_lit l ++ tl) with
+  | Some (d, rest) => dec_string (render_lit l ++ tl) = Ok (d, rest)
+  | None => False
+  end.
+Proof. exact unescape_fn. Qed.
+Print Assumptions C09_unescape_fn.
+
+Theorem C09_quote_fn : forall (h : bool) (s : list N),
+  unescape (quoteStr h s) = Some (utf8_sanitise s, []) /\ quote_valid (quoteStr h s) = true.
+Proof. exact quote_unescape. Qed.
+Print Assumptions C09_quote_fn.
 
 (* non-vacuity *)
 Example C09_readfloat_nonvacuous :
